@@ -9,7 +9,8 @@ use proptest::prelude::*;
 use serde::{Deserialize, Serialize};
 use yata::core::{Candle, PeriodType, ValueType};
 
-pub const MAG_MIN: f64 = 1e-6;
+/// (the code imposes no lower limit on magnitudes; 1e-24 keeps squares and products far from the subnormal range)
+pub const MAG_MIN: f64 = 1e-24;
 pub const MAG_MAX: f64 = 1e9;
 
 /// round to the crate's value type (identity for f64 builds)
@@ -51,7 +52,7 @@ fn seg_strategy(kinds: u8) -> impl Strategy<Value = SegSpec> {
 }
 
 pub fn spec_strategy(max_segs: usize) -> impl Strategy<Value = StreamSpec> {
-	(-5i8..=8, any::<u16>(), any::<bool>(), proptest::collection::vec(seg_strategy(12), 1..=max_segs))
+	(prop_oneof![6 => -5i8..=8, 1 => -22i8..=-6], any::<u16>(), any::<bool>(), proptest::collection::vec(seg_strategy(12), 1..=max_segs))
 		.prop_map(|(base_exp, base_mant, negative, segs)| StreamSpec { base_exp, base_mant, negative, segs })
 }
 
@@ -69,6 +70,9 @@ fn clamp_mag(x: f64, dom: Domain) -> f64 {
 	let m = x.abs().clamp(MAG_MIN, MAG_MAX);
 	match dom {
 		Domain::Any => m.copysign(x),
+		// volumes: 0 or at least 1e-6 (a dynamic range of volumes beyond 10^18 is not a realistic input and
+		// only measures the cancellation of running volume sums)
+		Domain::NonNegative => m.max(1e-6),
 		_ => m,
 	}
 }
